@@ -56,6 +56,12 @@ type writerModel struct {
 	snapInit []byte
 
 	payloads [][2][]byte // caller payload memory and snapshot
+
+	// multiFlushBytes: keep using a bytes-backed writer after its Flush (C09). What later
+	// flushes publish is not defined by any property; but a slice the writer has published
+	// belongs to the caller from then on and must never be written again.
+	multiFlushBytes bool
+	published       [][2][]byte
 }
 
 func (m *writerModel) site(op string) string { return op + "/" + m.kind }
@@ -254,6 +260,11 @@ func (m *writerModel) checkPayloads(when string) {
 			m.c.Fail("CALLER_MODIFIED", m.site("WriteBinary"), sim.F{}, "a payload passed to WriteBinary (caller memory, %d bytes) was modified at offset %d %s", len(p[0]), d, when)
 		}
 	}
+	for _, p := range m.published {
+		if d := firstDiff(p[0], p[1]); d >= 0 {
+			m.c.Fail("CALLER_MODIFIED", m.site("Flush"), sim.F{"published_output": true}, "the slice published by an earlier Flush of the bytes-backed writer (%d bytes, now the caller's) was modified at offset %d %s", len(p[0]), d, when)
+		}
+	}
 	if m.snapInit != nil {
 		// the first len(initial) bytes of the caller's array are never modified
 		if d := firstDiff(m.backing[:len(m.snapInit)], m.snapInit); d >= 0 {
@@ -369,7 +380,14 @@ func (m *writerModel) Flush() {
 	m.growthsInEpoch = 0
 	m.epoch++
 	if m.target != nil {
-		m.checkTarget()
+		if m.epoch == 1 || (len(exp) == 0 && !m.multiFlushBytes) {
+			m.checkTarget()
+		}
+		if m.multiFlushBytes && len(exp) > 0 {
+			pub := *m.target
+			m.published = append(m.published, [2][]byte{pub, append([]byte(nil), pub...)})
+			m.c.Count("probe.bytes_writer_reused_after_flush")
+		}
 	}
 	m.checkWrittenLen("Flush")
 	m.end(3, len(exp), true)
